@@ -94,10 +94,11 @@ pub fn gen_k(t: &mut Tape<'_>, r: &BigUint) -> (BigUint, &'static str) {
     (v % r, c)
 }
 
-/// Raw limb slice for `mul_bigint`: canonical, >= r, all ones, shorter than N, longer than N.
+/// Raw limb slice for `mul_bigint`: canonical, >= r, all ones, shorter than N, longer than N (zero padded; with a
+/// non-zero top limb; and integers of any width up to N+8 limbs followed by 0..3 zero limbs).
 pub fn gen_limbs(t: &mut Tape<'_>, r: &BigUint, n: usize) -> (Vec<u64>, &'static str) {
     let full = pow2(64 * n);
-    match t.weighted(&[8, 3, 1, 3, 3, 3]) {
+    match t.weighted(&[8, 3, 1, 3, 3, 3, 5]) {
         0 => {
             let (k, _) = gen_k(t, r);
             (to_limbs(&k, n), "limbs=canonical")
@@ -128,7 +129,7 @@ pub fn gen_limbs(t: &mut Tape<'_>, r: &BigUint, n: usize) -> (Vec<u64>, &'static
             v.extend(std::iter::repeat(0).take(1 + t.below(3) as usize));
             (v, "limbs=longer-zero-padded")
         },
-        _ => {
+        5 => {
             let m = n + 1 + t.below(n as u64 + 1) as usize;
             let mut v = match t.below(3) {
                 0 => vec![u64::MAX; m],
@@ -139,6 +140,40 @@ pub fn gen_limbs(t: &mut Tape<'_>, r: &BigUint, n: usize) -> (Vec<u64>, &'static
                 *v.last_mut().unwrap() = 1 + t.below(7);
             }
             (v, "limbs=longer-nonzero-high")
+        },
+        _ => {
+            // an integer of arbitrary width (1 .. N+8 limbs, top limb non-zero), then 0..3 zero limbs on top: the slice
+            // length says nothing about the size of the integer, and the integer may or may not fit the scalar field
+            let m = 1 + t.below(n as u64 + 8) as usize;
+            let mut v = match t.below(5) {
+                0 => vec![u64::MAX; m],
+                1 => edge_limbs(t, m),
+                2 => {
+                    // 2^(64(m-1)) * hi + small
+                    let mut v = vec![0u64; m];
+                    v[0] = t.below(1 << 16);
+                    v
+                },
+                3 => {
+                    // a multiple of r plus something small, truncated to m limbs
+                    let (k, _) = gen_k(t, r);
+                    let f = BigUint::from(t.edge_u64()) << (64 * t.below(m as u64) as usize);
+                    to_limbs(&((r * f + k) % pow2(64 * m)), m)
+                },
+                _ => t.limbs(m),
+            };
+            if *v.last().unwrap() == 0 {
+                *v.last_mut().unwrap() = 1 + t.below(7);
+            }
+            let pad = t.below(4) as usize;
+            v.extend(std::iter::repeat(0).take(pad));
+            let cls = match (m > n, pad > 0) {
+                (true, true) => "limbs=wider-than-N-then-zero-padded",
+                (true, false) => "limbs=wider-than-N",
+                (false, true) => "limbs=fits-N-zero-padded",
+                (false, false) => "limbs=fits-N",
+            };
+            (v, cls)
         },
     }
 }
